@@ -40,6 +40,11 @@ STUBS = ["hta.common.trace_parser.parse_trace_dict", "Trace._validate_trace_file
 TIE_MAX_RUN = 3
 
 
+def _read_json(path):
+    raw = open(path, "rb").read()
+    return json.loads(gzip.decompress(raw) if raw[:2] == b"\x1f\x8b" else raw)
+
+
 def skeletons(tier):
     out = []
     maxn = 3 if tier == "quick" else 4
@@ -218,7 +223,7 @@ def run(ctx):
             ctx.prove(os.path.exists(fn), "counter-file-written", {"rank": r})
             if not os.path.exists(fn):
                 continue
-            out = json.loads(gzip.open(fn, "rb").read())["traceEvents"]
+            out = _read_json(fn)["traceEvents"]
         ctx.prove(len(out) == len(src) + len(exp[r]), "counter-file-length", {"rank": r, "len": len(out)})
         same = True
         for a, b in zip(src, out[:len(src)]):
